@@ -238,7 +238,7 @@ def attach_returned(events, st, solver):
         end["vhok"] = bool(good)
 
 
-def build_solver(job):
+def build_solver(job, ckpt_dir=None):
     mdp = job["mdp"]
     kind = job["kind"]
     GN, GD = job["gamma"]
@@ -261,10 +261,26 @@ def build_solver(job):
     if kind == "PI":
         kw["max_eval_iter"] = job.get("max_eval_iter", 100)
         kw["reset_values_for_each_policy_eval"] = job.get("reset", False)
+    if ckpt_dir is not None:
+        r = job["reload"]
+        kw.update(checkpoint_dir=ckpt_dir, checkpoint_frequency=r.get("freq", 1), max_checkpoints=r.get("keep", 2),
+                  enable_async_checkpointing=bool(r.get("async", True)))
     return solver_class(kind)(problem, **kw)
 
 
 def run_job(job):
+    if job.get("reload"):
+        import shutil
+        import tempfile
+        d = tempfile.mkdtemp(prefix="verif-reload-")
+        try:
+            return _run_job(job, d)
+        finally:
+            shutil.rmtree(d, ignore_errors=True)
+    return _run_job(job, None)
+
+
+def _run_job(job, ckpt_dir):
     """Returns a list of raw recordings: one per injected vector, or a single one."""
     mdp = job["mdp"]
     kind = job["kind"]
@@ -272,7 +288,7 @@ def run_job(job):
     _verif.clear_sinks()
     _verif.add_sink(rec)
     try:
-        solver = build_solver(job)
+        solver = build_solver(job, ckpt_dir)
     except Exception as ex:
         _verif.clear_sinks()
         return [{"crash": f"{type(ex).__name__}: {str(ex)[:300]}"}]
@@ -302,6 +318,14 @@ def run_job(job):
                 from mdpax.solvers import ValueIteration as _VI
                 _VI(Forest(S=3), **job["interloper"])
             try:
+                if ckpt_dir is not None and ci in job["reload"].get("before_calls", []):
+                    # interrupt-and-resume inside the exactly judged run: a NEW solver instance loads the latest
+                    # checkpoint of the directory and continues; every later sweep is still judged from the values,
+                    # gain, history and iteration count the previous instance ended with
+                    solver.checkpoint_manager.wait_until_finished()
+                    fresh = build_solver(job, ckpt_dir)
+                    fresh.load_checkpoint(ckpt_dir)
+                    solver = fresh
                 st = solver.solve(max_iterations=k)
                 results.append(st)
                 attach_returned(rec.events, st, solver)
@@ -514,6 +538,7 @@ def project(job, raw):
              "iter0": evs[0]["it"] if evs[0]["e"] == "solve_begin" else 0,
              "gain0": at(raw["gain0"]) or 0, "injected": bool(raw.get("injected")),
              "period": job.get("period", 0), "shuffle": bool(job.get("shuffle", False)),
+             "reloads": bool(job.get("reload")),
              "layout": raw["layout"], "ev": tr_events, "complete": complete,
              "cert": {"kind": "none"}, "scale_exp": E, "error": raw["error"],
              "inexact_at": inexact_at, "out_len": raw["out_len"],
